@@ -131,6 +131,9 @@ def run(lines, out, args):
                 body[name] = mkfunc(name, psig(c[1:]), False)
             elif c[0] == "D":
                 body[name] = mkfunc_d(name, psig(c[1:]))
+            elif c[0] == "T":
+                # a @staticmethod in the class body: no self, whether it is reached through the class or an instance
+                body[name] = staticmethod(mkfunc(name, psig(c[1:]), False))
             elif c[0] == "F":
                 inst_attrs[name] = mkfunc(name, psig(c[1:]), False)
             elif c == "B":
@@ -182,7 +185,7 @@ def run(lines, out, args):
             if d == "A":
                 continue
             attr = getattr(probe, name)
-            if c[0] in "FGHD":
+            if c[0] in "FGHDT":
                 target = attr if not cls_mode else getattr(C(), name)
                 s = inspect.signature(target)
                 impl_pos = len([p for p in s.parameters.values() if p.kind in (p.POSITIONAL_ONLY, p.POSITIONAL_OR_KEYWORD)])
